@@ -635,8 +635,8 @@ package rapid
 //@   ensures [C07] implies(result4 != nil, result3 == lastInit) && implies(result4 == nil, result3 == 0)
 //@   ensures [C09] implies(result2, result4 == nil)
 //@   modifies heap, drawn, runs, lastInit, lockmode, cancelled
-//@   at r.init#0 assert [C07] implies(valid + invalid == 0, seed == old(seed))
-//@   at r.init#0 set lastInit = seed
+//@   at r.init#0 assert [C07] implies(valid + invalid == 0, arg0 == old(seed))
+//@   at r.init#0 set lastInit = arg0
 //@   at checkOnce#0 set runs = runs + 1
 //@   loop 0 invariant [C09] 0 <= valid && valid <= checks && 0 <= invalid && invalid <= checks*10 && runs - old(runs) == valid + invalid
 //@   loop 0 invariant [C11] clean(t) && unlocked(t) && fresh(t)
